@@ -51,11 +51,21 @@ Definition Payload880a : N := 29.
 (* ---------------------------------------------------------------- *)
 (* Session configuration read by Parse, and the net/netip predicates of the host-table gate *)
 
+(* Which variant of the view validators Parse calls is in force.  IP4.IsValid, IP6.IsValid and TCP.IsValid belong
+   to the VIEWS cluster; their recorded defects (DESIGN section 11 #3, #5, #9) are repaired there.  The model carries
+   both variants of each, every theorem is proved for all of them, and Model/ParseFixes.v says which one /repo
+   has at present (the dispatch modules read it; flip it when FIXLOG.md announces the repair).
+     fx_ip4: n >= 20 && IHL >= 20 && n >= IHL && TotalLen >= IHL && n >= TotalLen     (was: n >= 20 && n >= IHL && n >= TotalLen)
+     fx_ip6: n >= 40 && PayloadLen + 40 <= n                                          (was: uint16(PayloadLen + 40) == n)
+     fx_tcp: n >= 20 && 4*DataOffset >= 20 && n >= 4*DataOffset                       (was: n >= 20) *)
+Record fixes := mkFixes { fx_ip4 : bool; fx_ip6 : bool; fx_tcp : bool }.
+
 Record cfg := mkCfg {
   c_hostmac : bytes;      (* h.NICInfo.HostAddr4.MAC *)
   c_routermac : bytes;    (* h.NICInfo.RouterAddr4.MAC *)
   c_lan : bytes;          (* h.NICInfo.HomeLAN4: the 4 address bytes ... *)
-  c_bits : N              (* ... and the prefix length (0..32; anything else: invalid prefix) *)
+  c_bits : N;             (* ... and the prefix length (0..32; anything else: invalid prefix) *)
+  c_fx : fixes            (* not session state: the variant of the validators compiled into the library *)
 }.
 
 (* bytes.Equal *)
@@ -170,12 +180,12 @@ Definition ip4_ihl (p : slice) : res nat :=
 Definition ip4_totallen (p : slice) : res nat :=
   v <- be16_at p 2 ;; Ok (N.to_nat v).
 (* if n := len(p); n >= 20 && n >= p.IHL() && n >= p.TotalLen() { return nil }; every other path: ErrFrameLen *)
-Definition ip4_is_valid (p : slice) : res unit :=
+Definition ip4_is_valid (fx : fixes) (p : slice) : res unit :=
   if Nat.leb 20 (len p) then
     ihl <- ip4_ihl p ;;
-    if Nat.leb ihl (len p) then
+    if (if fx_ip4 fx then Nat.leb 20 ihl else true) && Nat.leb ihl (len p) then
       tl <- ip4_totallen p ;;
-      if Nat.leb tl (len p) then Ok tt else Err EFrameLen
+      if (if fx_ip4 fx then Nat.leb ihl tl else true) && Nat.leb tl (len p) then Ok tt else Err EFrameLen
     else Err EFrameLen
   else Err EFrameLen.
 Definition ip4_protocol (p : slice) : res N := idx p 9.
@@ -183,10 +193,11 @@ Definition ip4_src (p : slice) : res bytes := bytes_at p 12 16.
 Definition ip4_dst (p : slice) : res bytes := bytes_at p 16 20.
 
 (* IP6 (layer_ip6.go:21-37): len(p) >= 40 && int(p.PayloadLen()+40) == len(p)   -- uint16 addition *)
-Definition ip6_is_valid (p : slice) : res unit :=
+Definition ip6_is_valid (fx : fixes) (p : slice) : res unit :=
   if Nat.leb 40 (len p) then
     pl <- be16_at p 4 ;;
-    if u16 (pl + 40) =? N.of_nat (len p) then Ok tt else Err EFrameLen
+    if (if fx_ip6 fx then Nat.leb (N.to_nat pl + 40) (len p) else u16 (pl + 40) =? N.of_nat (len p))
+    then Ok tt else Err EFrameLen
   else Err EFrameLen.
 Definition ip6_next_header (p : slice) : res N := idx p 6.
 Definition ip6_src (p : slice) : res bytes := bytes_at p 8 24.
@@ -194,7 +205,15 @@ Definition ip6_dst (p : slice) : res bytes := bytes_at p 24 40.
 
 (* UDP / TCP / ICMP (layer_ip4.go:163-234, layer_icmp.go:28-74) *)
 Definition udp_is_valid (p : slice) : res unit := if Nat.leb 8 (len p) then Ok tt else Err EFrameLen.
-Definition tcp_is_valid (p : slice) : res unit := if Nat.leb 20 (len p) then Ok tt else Err EFrameLen.
+(* TCP.HeaderLen (repaired) = int(p[12]>>4) * 4 *)
+Definition tcp_is_valid (fx : fixes) (p : slice) : res unit :=
+  if Nat.leb 20 (len p) then
+    if fx_tcp fx then
+      b <- idx p 12 ;;
+      let hl := N.to_nat (4 * (b / 16)) in
+      if Nat.leb 20 hl && Nat.leb hl (len p) then Ok tt else Err EFrameLen
+    else Ok tt
+  else Err EFrameLen.
 Definition icmp_is_valid (p : slice) : res unit := if Nat.leb 8 (len p) then Ok tt else Err EFrameLen.
 Definition src_port (p : slice) : res N := be16_at p 0.
 Definition dst_port (p : slice) : res N := be16_at p 2.
@@ -238,7 +257,7 @@ Definition udp_class (sp dp : N) : option N :=
   else None.
 
 (* switch proto (layer_frame.go:307-412) *)
-Definition parse_proto (s : slice) (f : frame) (proto : N) : res frame :=
+Definition parse_proto (fx : fixes) (s : slice) (f : frame) (proto : N) : res frame :=
   if proto =? 17 then                                   (* IPPROTO_UDP *)
     let f := set_id f PayloadUDP in
     p <- payload_view s f ;;
@@ -253,7 +272,7 @@ Definition parse_proto (s : slice) (f : frame) (proto : N) : res frame :=
   else if proto =? 6 then                               (* IPPROTO_TCP *)
     let f := set_id f PayloadTCP in
     p <- payload_view s f ;;
-    _ <- tcp_is_valid p ;;
+    _ <- tcp_is_valid fx p ;;
     sp <- src_port p ;;
     dp <- dst_port p ;;
     Ok (set_ports (set_offT f (f_offP f)) sp dp)
@@ -283,7 +302,7 @@ Definition parse_proto (s : slice) (f : frame) (proto : N) : res frame :=
 Definition parse_ip4 (c : cfg) (s : slice) (f : frame) : res frame :=
   let f := set_id f PayloadIP4 in
   p <- payload_view s f ;;
-  _ <- ip4_is_valid p ;;
+  _ <- ip4_is_valid (c_fx c) p ;;
   ihl <- ip4_ihl p ;;
   proto <- ip4_protocol p ;;
   sip <- ip4_src p ;;
@@ -292,13 +311,13 @@ Definition parse_ip4 (c : cfg) (s : slice) (f : frame) : res frame :=
   let f := mkFrame (f_offP f) 0 0 0 (f_offP f + ihl) PayloadIP4
                    (mkAddr smac sip 0) (mkAddr (a_mac (f_dst f)) dip 0)
                    None (if gate4 c smac sip then Some (smac, sip) else None) in
-  parse_proto s f proto.
+  parse_proto (c_fx c) s f proto.
 
 (* case ETH_P_IPV6 (layer_frame.go:202-234) *)
 Definition parse_ip6 (c : cfg) (s : slice) (f : frame) : res frame :=
   let f := set_id f PayloadIP6 in
   p <- payload_view s f ;;
-  _ <- ip6_is_valid p ;;
+  _ <- ip6_is_valid (c_fx c) p ;;
   proto <- ip6_next_header p ;;
   sip <- ip6_src p ;;
   dip <- ip6_dst p ;;
@@ -306,7 +325,7 @@ Definition parse_ip6 (c : cfg) (s : slice) (f : frame) : res frame :=
   let f := mkFrame 0 (f_offP f) 0 0 (f_offP f + 40) PayloadIP6
                    (mkAddr smac sip 0) (mkAddr (a_mac (f_dst f)) dip 0)
                    None (if gate6 c smac sip then Some (smac, sip) else None) in
-  parse_proto s f proto.
+  parse_proto (c_fx c) s f proto.
 
 (* case ETH_P_ARP (layer_frame.go:235-259):
      if arp = frame.Payload(); len(arp) < 28 || arp[4] != 6 { return frame, ErrParseFrame }
